@@ -736,6 +736,418 @@ theorem getI_out {α} [Zero α] (a : Arr α) (j : List Int) (h : OutOfBox a.shap
 /-- the zero extension of any array is supported in its shape box -/
 theorem supp_ext {α} [Zero α] (a : Arr α) : Supp a.shape (ext a) := fun j h => getI_out a j h
 
+
+/-! ## Deepening: linearity of the correlation functionals, CORR numerator identity, centre-voxel and
+valid-window index arithmetic -/
+
+section Linearity
+open Pm.C03
+variable {α : Type} [CommRing α]
+
+/-- the windowed (textbook) correlation is additive in the template — what lets every score split its template-side
+field into summands (`(g-μ)·w = g·w - μ·w`) before transforming -/
+theorem corrSpec_add_template (ms : List Nat) (f g₁ g₂ : List Int → α) (t : List Int) :
+    corrSpec ms f (fun x => g₁ x + g₂ x) t = corrSpec ms f g₁ t + corrSpec ms f g₂ t := by
+  unfold corrSpec
+  rw [← sumShape_add]
+  apply sumShape_congr; intro k _; ring
+
+/-- the windowed correlation is additive in the target -/
+theorem corrSpec_add_target (ms : List Nat) (f₁ f₂ g : List Int → α) (t : List Int) :
+    corrSpec ms (fun x => f₁ x + f₂ x) g t = corrSpec ms f₁ g t + corrSpec ms f₂ g t := by
+  unfold corrSpec
+  rw [← sumShape_add]
+  apply sumShape_congr; intro k _; ring
+
+/-- the windowed correlation is homogeneous in the template: scaling the template scales the CC / LCC value -/
+theorem corrSpec_smul_template (ms : List Nat) (c : α) (f g : List Int → α) (t : List Int) :
+    corrSpec ms f (fun x => c * g x) t = c * corrSpec ms f g t := by
+  unfold corrSpec
+  rw [← sumShape_mul_left]
+  apply sumShape_congr; intro k _; ring
+
+/-- the windowed correlation is homogeneous in the target: scaling the target scales the CC / LCC value -/
+theorem corrSpec_smul_target (ms : List Nat) (c : α) (f g : List Int → α) (t : List Int) :
+    corrSpec ms (fun x => c * f x) g t = c * corrSpec ms f g t := by
+  unfold corrSpec
+  rw [← sumShape_mul_left]
+  apply sumShape_congr; intro k _; ring
+
+/-- **CORR / CAM numerator identity** at the level of correlation maps: correlating with the mean-subtracted masked
+template `(g - μ)·w` is `corr(f, g·w) - μ · corr(f, w)` — the `C f (rot g2) - ws * meanT` of `corr_scoring` -/
+theorem corrSpec_centered_template (ms : List Nat) (μ : α) (f g w : List Int → α) (t : List Int) :
+    corrSpec ms f (fun x => (g x - μ) * w x) t
+      = corrSpec ms f (fun x => g x * w x) t - μ * corrSpec ms f w t := by
+  unfold corrSpec
+  rw [← sumShape_mul_left, ← sumShape_sub]
+  apply sumShape_congr; intro k _; ring
+
+/-- a constant offset `a` of the target adds `a · Σ_k g[k]` to the windowed correlation (so it drops out of every score
+whose template-side field sums to zero) -/
+theorem corrSpec_target_offset (ms : List Nat) (a : α) (f g : List Int → α) (t : List Int) :
+    corrSpec ms (fun x => f x + a) g t = corrSpec ms f g t + a * sumShape ms (fun k => g (natsToInts k)) := by
+  unfold corrSpec
+  rw [← sumShape_mul_left, ← sumShape_add]
+  apply sumShape_congr; intro k _; ring
+
+/-- the FFT product (circular convolution) is additive in its template-side operand -/
+theorem circ_add_right (Ns : List Nat) (a b₁ b₂ : List Int → α) (u : List Int) :
+    circ Ns a (fun x => b₁ x + b₂ x) u = circ Ns a b₁ u + circ Ns a b₂ u := by
+  unfold circ
+  rw [← sumShape_add]
+  apply sumShape_congr; intro k _; ring
+
+/-- the FFT product is additive in its target-side operand -/
+theorem circ_add_left (Ns : List Nat) (a₁ a₂ b : List Int → α) (u : List Int) :
+    circ Ns (fun x => a₁ x + a₂ x) b u = circ Ns a₁ b u + circ Ns a₂ b u := by
+  unfold circ
+  rw [← sumShape_add]
+  apply sumShape_congr; intro k _; ring
+
+/-- the FFT product is homogeneous in the template-side operand -/
+theorem circ_smul_right (Ns : List Nat) (c : α) (a b : List Int → α) (u : List Int) :
+    circ Ns a (fun x => c * b x) u = c * circ Ns a b u := by
+  unfold circ
+  rw [← sumShape_mul_left]
+  apply sumShape_congr; intro k _; ring
+
+/-- the FFT product is homogeneous in the target-side operand -/
+theorem circ_smul_left (Ns : List Nat) (c : α) (a b : List Int → α) (u : List Int) :
+    circ Ns (fun x => c * a x) b u = c * circ Ns a b u := by
+  unfold circ
+  rw [← sumShape_mul_left]
+  apply sumShape_congr; intro k _; ring
+
+/-- the whole implementation map (reverse, FFT product, roll, crop) is additive in the natural-frame template, in every
+frame and at every output position — no side condition -/
+theorem implCorr_add_template (Ns ms : List Nat) (shifts css : List Int) (f g₁ g₂ : List Int → α) (t : List Int) :
+    implCorr Ns ms shifts css f (fun x => g₁ x + g₂ x) t
+      = implCorr Ns ms shifts css f g₁ t + implCorr Ns ms shifts css f g₂ t := by
+  unfold implCorr
+  rw [← rev_map2 ms (fun a b => a + b) g₁ g₂]
+  exact circ_add_right Ns f _ _ _
+
+/-- … and homogeneous in it -/
+theorem implCorr_smul_template (Ns ms : List Nat) (shifts css : List Int) (c : α) (f g : List Int → α) (t : List Int) :
+    implCorr Ns ms shifts css f (fun x => c * g x) t = c * implCorr Ns ms shifts css f g t := by
+  unfold implCorr
+  rw [← rev_map1 ms (fun a => c * a) g]
+  exact circ_smul_right Ns c f _ _
+
+/-- the CORR / CAM numerator identity on the implementation side: the FFT map of the mean-subtracted masked template is
+the FFT map of `g·w` minus `μ` times the FFT map of the mask -/
+theorem implCorr_centered_template (Ns ms : List Nat) (shifts css : List Int) (μ : α) (f g w : List Int → α)
+    (t : List Int) :
+    implCorr Ns ms shifts css f (fun x => (g x - μ) * w x) t
+      = implCorr Ns ms shifts css f (fun x => g x * w x) t - μ * implCorr Ns ms shifts css f w t := by
+  have e : (fun x => (g x - μ) * w x) = fun x => g x * w x + (-μ) * w x := by funext x; ring
+  rw [e, implCorr_add_template, implCorr_smul_template]; ring
+
+end Linearity
+
+/-! ### centre-voxel convention `shape // 2` and the valid-window range -/
+
+/-- per axis, the centre voxel `m/2` splits the template into `m/2` voxels before and `(m-1)/2` after it (odd: equal
+halves; even: one more before) -/
+theorem centre_split (m : Nat) (hm : 0 < m) : m / 2 + (m - 1) / 2 = m - 1 := by omega
+
+/-- odd extents: the centre voxel is the exact middle `(m-1)/2` -/
+theorem centre_odd (m : Nat) (h : m % 2 = 1) : m / 2 = (m - 1) / 2 := by omega
+
+/-- even extents: the centre voxel is the upper of the two middle voxels -/
+theorem centre_even (m : Nat) (hm : 0 < m) (h : m % 2 = 0) : m / 2 = (m - 1) / 2 + 1 := by omega
+
+/-- **centre-voxel convention.**  The window position of template voxel `shape // 2` is the translation `t` itself -/
+theorem specIdx_centre : ∀ (ms : List Nat) (t : List Int), t.length = ms.length →
+    specIdx ms t (ms.map (· / 2)) = t
+  | [], [], _ => rfl
+  | m :: ms, t :: ts, h => by
+    simp only [List.map_cons, specIdx]
+    rw [specIdx_centre ms ts (by simpa using h)]
+    congr 1; omega
+  | [], _ :: _, h => by simp at h
+  | _ :: _, [], h => by simp at h
+
+/-- the centre voxel `shape // 2` is a voxel of the template whenever all extents are positive -/
+theorem centre_inShape : ∀ (ms : List Nat), (∀ m ∈ ms, 0 < m) → inShape ms (ms.map (· / 2)) = true
+  | [], _ => rfl
+  | m :: ms, h => by
+    simp only [List.map_cons, inShape, Bool.and_eq_true, decide_eq_true_eq]
+    refine ⟨?_, centre_inShape ms (fun x hx => h x (List.mem_cons_of_mem _ hx))⟩
+    have := h m List.mem_cons_self
+    omega
+
+/-- **valid-window range without padding, per axis**: all `m` voxels of the window centred (`m/2`) at `t` lie inside a
+target of extent `n` exactly when `m/2 ≤ t ≤ n - 1 - (m-1)/2` — the side condition of `SameOk false` is sharp -/
+theorem window_inside_iff (n m : Nat) (t : Int) (hm : 0 < m) :
+    (∀ k : Nat, k < m → 0 ≤ t + (k : Int) - ((m / 2 : Nat) : Int) ∧ t + (k : Int) - ((m / 2 : Nat) : Int) < n) ↔
+    (((m / 2 : Nat) : Int) ≤ t ∧ t ≤ (n : Int) - 1 - (((m - 1) / 2 : Nat) : Int)) := by
+  constructor
+  · intro h
+    have h0 := h 0 hm
+    have h1 := h (m - 1) (by omega)
+    omega
+  · intro h k hk; omega
+
+/-- there are exactly `n - m + 1` such translations per axis -/
+theorem valid_range_count (n m : Nat) (hm : 0 < m) (hmn : m ≤ n) :
+    ((n : Int) - 1 - (((m - 1) / 2 : Nat) : Int)) - ((m / 2 : Nat) : Int) + 1 = ((n - m + 1 : Nat) : Int) := by omega
+
+/-- the `valid` crop keeps all of them for odd template extents and all but the last for even ones -/
+theorem validExt_parity (n m : Nat) :
+    (m % 2 = 1 → validExt n m = n - m + 1) ∧ (m % 2 = 0 → validExt n m = n - m) := by
+  unfold validExt; omega
+
+/-- every position of the `valid` crop stands for a translation inside the valid-window range of its axis -/
+theorem validT_axis_inside (n m : Nat) (j : Int) (hm : 0 < m) (hmn : m ≤ n) (hj0 : 0 ≤ j) (hj1 : j < validExt n m) :
+    ((m / 2 : Nat) : Int) ≤ j + ((m / 2 : Nat) : Int) ∧
+      j + ((m / 2 : Nat) : Int) ≤ (n : Int) - 1 - (((m - 1) / 2 : Nat) : Int) := by
+  unfold validExt at hj1; omega
+
+/-- **without Fourier padding, in any dimension**: at every translation admitted by `SameOk false` the whole template
+window lies inside the target box, so no zero-extended or wrapped voxel enters the score -/
+theorem window_inside_nopad : ∀ (ns ms Ns : List Nat) (t : List Int) (k : List Nat),
+    SameOk false ns ms Ns t → inShape ms k = true → ¬ OutOfBox ns (specIdx ms t k)
+  | [], [], [], [], [], _, _ => by simp [OutOfBox]
+  | [], [], [], [], _ :: _, _, hk => by simp [inShape] at hk
+  | n :: ns, m :: ms, N :: Ns, t :: ts, [], _, hk => by simp [inShape] at hk
+  | n :: ns, m :: ms, N :: Ns, t :: ts, k :: ks, h, hk => by
+    obtain ⟨⟨hm, hmn, hN, ht0, ht1, hwin⟩, hrest⟩ := h
+    obtain ⟨hw0, hw1⟩ := hwin rfl
+    have hk' := inShape_cons.mp hk
+    have ih := window_inside_nopad ns ms Ns ts ks hrest hk'.2
+    have hk0 : k < m := hk'.1
+    simp only [specIdx, OutOfBox]
+    rintro ((h | h) | h)
+    · omega
+    · omega
+    · exact ih h
+  | [], _ :: _, _, _, _, h, _ => by cases h
+  | [], [], _ :: _, _, _, h, _ => by cases h
+  | [], [], [], _ :: _, _, h, _ => by cases h
+  | _ :: _, [], _, _, _, h, _ => by cases h
+  | _ :: _, _ :: _, [], _, _, h, _ => by cases h
+  | _ :: _, _ :: _, _ :: _, [], _, h, _ => by cases h
+
+
+/-! ### variance identity of FLC, offset invariances, translation covariance -/
+
+section Variance
+open Pm.C03
+
+/-- **FLC variance term is non-negative before the clamp**: for a non-negative mask, `(Σ w)·corr(f², w) − corr(f, w)² ≥ 0`
+at every translation (Cauchy–Schwarz), so `max0` in `flc_scoring` only ever absorbs rounding -/
+theorem flc_variance_nonneg {α : Type} [CommRing α] [LinearOrder α] [IsStrictOrderedRing α] (ms : List Nat)
+    (f w : List Int → α) (t : List Int) (hw : ∀ x, 0 ≤ w x) :
+    (corrSpec ms f w t) ^ 2
+      ≤ sumShape ms (fun k => w (natsToInts k)) * corrSpec ms (fun x => f x * f x) w t := by
+  have h := box_cauchy_schwarz ms (fun k => w (natsToInts k)) (fun _ => 1) (fun k => f (specIdx ms t k))
+    (fun k _ => hw _)
+  have e1 : sumShape ms (fun k => w (natsToInts k) * ((1 : α) * f (specIdx ms t k))) = corrSpec ms f w t :=
+    sumShape_congr _ _ _ (fun k _ => by ring)
+  have e2 : sumShape ms (fun k => w (natsToInts k) * ((1 : α) * 1)) = sumShape ms (fun k => w (natsToInts k)) :=
+    sumShape_congr _ _ _ (fun k _ => by ring)
+  have e3 : sumShape ms (fun k => w (natsToInts k) * (f (specIdx ms t k) * f (specIdx ms t k)))
+      = corrSpec ms (fun x => f x * f x) w t := sumShape_congr _ _ _ (fun k _ => by ring)
+  rw [e1, e2, e3] at h
+  exact h
+
+/-- **equality case**: on a target that is constant the variance term vanishes identically (any mask, any ring) — the
+windows the `sd < eps` guard of `flc_scoring` is there for -/
+theorem flc_variance_const {α : Type} [CommRing α] (ms : List Nat) (c : α) (w : List Int → α) (t : List Int) :
+    sumShape ms (fun k => w (natsToInts k)) * corrSpec ms (fun _ => c * c) w t
+      - (corrSpec ms (fun _ => c) w t) ^ 2 = 0 := by
+  unfold corrSpec
+  rw [sumShape_mul_left, sumShape_mul_left]; ring
+
+/-- a target offset drops out of the windowed correlation with any template-side field that sums to zero over the box
+(the mean-subtracted masked templates of CORR / CAM / FLC / MCC) -/
+theorem corrSpec_target_offset_invariant {α : Type} [CommRing α] (ms : List Nat) (a : α) (f g : List Int → α)
+    (t : List Int) (h0 : sumShape ms (fun k => g (natsToInts k)) = 0) :
+    corrSpec ms (fun x => f x + a) g t = corrSpec ms f g t := by
+  rw [corrSpec_target_offset, h0]; ring
+
+/-- mean of the template under the mask, `Σ g·w / Σ w` -/
+def maskedMean {α : Type} [Field α] (ms : List Nat) (g w : List Int → α) : α :=
+  sumShape ms (fun k => g (natsToInts k) * w (natsToInts k)) / sumShape ms (fun k => w (natsToInts k))
+
+/-- the masked mean follows a constant offset of the template -/
+theorem maskedMean_offset {α : Type} [Field α] (ms : List Nat) (a : α) (g w : List Int → α)
+    (hn : sumShape ms (fun k => w (natsToInts k)) ≠ 0) :
+    maskedMean ms (fun x => g x + a) w = maskedMean ms g w + a := by
+  unfold maskedMean
+  have e : (fun k => (g (natsToInts k) + a) * w (natsToInts k))
+      = fun k => g (natsToInts k) * w (natsToInts k) + a * w (natsToInts k) := by funext k; ring
+  rw [e, sumShape_add, sumShape_mul_left]
+  field_simp
+
+/-- **template offset invariance of the mean-subtracted scores**: the mean-subtracted masked template, hence its
+correlation with any target at any translation, does not change when a constant is added to the template -/
+theorem corrSpec_template_offset_invariant {α : Type} [Field α] (ms : List Nat) (a : α) (f g w : List Int → α)
+    (t : List Int) (hn : sumShape ms (fun k => w (natsToInts k)) ≠ 0) :
+    corrSpec ms f (fun x => ((g x + a) - maskedMean ms (fun y => g y + a) w) * w x) t
+      = corrSpec ms f (fun x => (g x - maskedMean ms g w) * w x) t := by
+  rw [maskedMean_offset ms a g w hn]
+  congr 1; funext x; ring
+
+/-- the mean-subtracted masked template sums to zero over the box (so target offsets drop out, previous theorem but one) -/
+theorem centered_template_sum_zero {α : Type} [Field α] (ms : List Nat) (g w : List Int → α)
+    (hn : sumShape ms (fun k => w (natsToInts k)) ≠ 0) :
+    sumShape ms (fun k => (g (natsToInts k) - maskedMean ms g w) * w (natsToInts k)) = 0 := by
+  have e : (fun k => (g (natsToInts k) - maskedMean ms g w) * w (natsToInts k))
+      = fun k => g (natsToInts k) * w (natsToInts k) - maskedMean ms g w * w (natsToInts k) := by funext k; ring
+  rw [e, sumShape_sub, sumShape_mul_left]
+  unfold maskedMean
+  field_simp
+  ring
+
+example : sumShape [2] (fun k => (fun _ : List Int => (1 : ℚ)) (natsToInts k)) ≠ 0 := by
+  simp only [sumShape, sumRange]; norm_num
+
+end Variance
+
+/-- window positions follow the translation: moving `t` by `s` moves every window voxel by `s` -/
+theorem specIdx_shift : ∀ (ms : List Nat) (t s : List Int) (k : List Nat),
+    specIdx ms (List.zipWith (· + ·) t s) k = List.zipWith (· + ·) (specIdx ms t k) s
+  | [], _, _, _ => by simp [specIdx]
+  | _ :: _, [], _, _ => by simp [specIdx]
+  | _ :: _, _ :: _, [], _ => by simp [specIdx]
+  | _ :: _, _ :: _, _ :: _, [] => by simp [specIdx]
+  | m :: ms, t :: ts, s :: ss, k :: ks => by
+    simp only [List.zipWith_cons_cons, specIdx]
+    rw [specIdx_shift ms ts ss ks]
+    congr 1; omega
+
+/-- **translation covariance of the score map**: translating the target by `s` translates the windowed correlation by
+`s` — the map reports, at `t`, the score of the window that sits at `t` -/
+theorem corrSpec_translate {α : Type} [Add α] [Mul α] [Zero α] (ms : List Nat) (f g : List Int → α) (t s : List Int) :
+    corrSpec ms (fun x => f (List.zipWith (· + ·) x s)) g t = corrSpec ms f g (List.zipWith (· + ·) t s) := by
+  unfold corrSpec
+  apply sumShape_congr
+  intro k _
+  rw [specIdx_shift]
+
+
+/-! ### target-side linearity of the implementation map, pointwise invariances of the standardisation, MCC numerator -/
+
+section More
+open Pm.C03
+
+/-- the implementation map is additive in the target -/
+theorem implCorr_add_target {α : Type} [CommRing α] (Ns ms : List Nat) (shifts css : List Int)
+    (f₁ f₂ g : List Int → α) (t : List Int) :
+    implCorr Ns ms shifts css (fun x => f₁ x + f₂ x) g t
+      = implCorr Ns ms shifts css f₁ g t + implCorr Ns ms shifts css f₂ g t := by
+  unfold implCorr
+  exact circ_add_left Ns f₁ f₂ _ _
+
+/-- the implementation map is homogeneous in the target (CC / LCC scale with the target's intensity) -/
+theorem implCorr_smul_target {α : Type} [CommRing α] (Ns ms : List Nat) (shifts css : List Int) (c : α)
+    (f g : List Int → α) (t : List Int) :
+    implCorr Ns ms shifts css (fun x => c * f x) g t = c * implCorr Ns ms shifts css f g t := by
+  unfold implCorr
+  exact circ_smul_left Ns c f _ _
+
+/-- one voxel of `normalize_template` is unchanged when template value, mean and standard deviation are scaled by the
+same non-zero factor — the pointwise reason the normalised scores ignore the template's intensity scale -/
+theorem normApply_scale {α : Type} [Field α] (sqrt : α → α) (lt : α → α → Bool) (eps c mu sd gx wx : α) (hc : c ≠ 0) :
+    normApply (fieldOps sqrt lt eps) (c * mu, c * sd) (c * gx) wx
+      = normApply (fieldOps sqrt lt eps) (mu, sd) gx wx := by
+  simp only [normApply, fieldOps]
+  rw [← mul_sub, mul_div_mul_left _ _ hc]
+
+/-- … and when template value and mean are offset by the same constant -/
+theorem normApply_offset {α : Type} [Field α] (sqrt : α → α) (lt : α → α → Bool) (eps a mu sd gx wx : α) :
+    normApply (fieldOps sqrt lt eps) (mu + a, sd) (gx + a) wx
+      = normApply (fieldOps sqrt lt eps) (mu, sd) gx wx := by
+  simp only [normApply, fieldOps]
+  rw [add_sub_add_right_eq_sub]
+
+/-- **MCC numerator with two masks**: with target mask `tm`, template mask `W`, overlap `ov = corr(tm, W) ≠ 0`, the
+code's `corr(f·tm, h·W) − corr(f·tm, W)·corr(tm, h·W)/ov` is the covariance of target and template over the overlap of
+the two masks, each centred by its own mean over that overlap -/
+theorem mcc_numerator_identity {α : Type} [Field α] (ms : List Nat) (f tm h W : List Int → α) (t : List Int)
+    (hov : corrSpec ms tm W t ≠ 0) :
+    corrSpec ms (fun x => f x * tm x) (fun x => h x * W x) t
+        - corrSpec ms (fun x => f x * tm x) W t * corrSpec ms tm (fun x => h x * W x) t / corrSpec ms tm W t
+      = sumShape ms (fun k => tm (specIdx ms t k) * W (natsToInts k) *
+          ((f (specIdx ms t k) - corrSpec ms (fun x => f x * tm x) W t / corrSpec ms tm W t) *
+           (h (natsToInts k) - corrSpec ms tm (fun x => h x * W x) t / corrSpec ms tm W t))) := by
+  have e : ∀ fb hb : α,
+      (fun k => tm (specIdx ms t k) * W (natsToInts k) * ((f (specIdx ms t k) - fb) * (h (natsToInts k) - hb)))
+      = fun k => f (specIdx ms t k) * tm (specIdx ms t k) * (h (natsToInts k) * W (natsToInts k))
+          + ((-hb) * (f (specIdx ms t k) * tm (specIdx ms t k) * W (natsToInts k))
+          + ((-fb) * (tm (specIdx ms t k) * (h (natsToInts k) * W (natsToInts k)))
+          + (fb * hb) * (tm (specIdx ms t k) * W (natsToInts k)))) := by
+    intro fb hb; funext k; ring
+  rw [e, sumShape_add, sumShape_add, sumShape_add, sumShape_mul_left, sumShape_mul_left, sumShape_mul_left]
+  simp only [corrSpec] at hov ⊢
+  field_simp
+  ring
+
+/-- **MCC target-side denominator with two masks**: `corr(f²·tm, W) − corr(f·tm, W)²/ov` is the sum of squared
+deviations of the target from its mean over the overlap of the two masks -/
+theorem mcc_denominator_identity {α : Type} [Field α] (ms : List Nat) (f tm W : List Int → α) (t : List Int)
+    (hov : corrSpec ms tm W t ≠ 0) :
+    corrSpec ms (fun x => f x * f x * tm x) W t - (corrSpec ms (fun x => f x * tm x) W t) ^ 2 / corrSpec ms tm W t
+      = sumShape ms (fun k => tm (specIdx ms t k) * W (natsToInts k) *
+          ((f (specIdx ms t k) - corrSpec ms (fun x => f x * tm x) W t / corrSpec ms tm W t) *
+           (f (specIdx ms t k) - corrSpec ms (fun x => f x * tm x) W t / corrSpec ms tm W t))) := by
+  have e : ∀ fb : α,
+      (fun k => tm (specIdx ms t k) * W (natsToInts k) * ((f (specIdx ms t k) - fb) * (f (specIdx ms t k) - fb)))
+      = fun k => f (specIdx ms t k) * f (specIdx ms t k) * tm (specIdx ms t k) * W (natsToInts k)
+          + ((-(2 * fb)) * (f (specIdx ms t k) * tm (specIdx ms t k) * W (natsToInts k))
+          + (fb * fb) * (tm (specIdx ms t k) * W (natsToInts k))) := by
+    intro fb; funext k; ring
+  rw [e, sumShape_add, sumShape_add, sumShape_mul_left, sumShape_mul_left]
+  simp only [corrSpec] at hov ⊢
+  field_simp
+  ring
+
+example : corrSpec [2] (fun _ : List Int => (1 : ℚ)) (fun _ => 1) [0] ≠ 0 := by
+  simp only [corrSpec, sumShape, sumRange]; norm_num
+
+end More
+
+
+/-- raw position `j + (m - 1)` per axis: first position of the full convolution at which the template overlaps the
+scored array completely, advanced by `j` -/
+def fullOverlapPos : List Nat → List Int → List Int
+  | m :: ms, j :: js => (j + ((m - 1 : Nat) : Int)) :: fullOverlapPos ms js
+  | _, _ => []
+
+/-- position `j` of the `valid` crop reads the raw FFT product at `j + (m - 1)` on every axis, for odd and even extents -/
+theorem rawPos_validT : ∀ (ms : List Nat) (j : List Int), (∀ m ∈ ms, 0 < m) →
+    rawPos ms (validT ms j) = fullOverlapPos ms j
+  | [], _, _ => by simp [rawPos, validT, fullOverlapPos]
+  | _ :: _, [], _ => by simp [rawPos, validT, fullOverlapPos]
+  | m :: ms, j :: js, h => by
+    simp only [validT, rawPos, fullOverlapPos]
+    rw [rawPos_validT ms js (fun x hx => h x (List.mem_cons_of_mem _ hx))]
+    congr 1
+    have := h m List.mem_cons_self
+    omega
+
+/-- the identity is one of the grid rotations (3-D) and leaves every template field unchanged -/
+theorem rotF_id3 {α : Type} (a b c : Nat) (g : List Int → α) :
+    GridOk3 ⟨[0,1,2], [false,false,false]⟩ a b c ∧ rotF ⟨[0,1,2], [false,false,false]⟩ [a,b,c] g = g := by
+  refine ⟨⟨⟨_, _, _, rfl⟩, Or.inl rfl⟩, ?_⟩
+  funext x
+  by_cases hx : x.length = 3
+  · match x, hx with
+    | [x0, x1, x2], _ => simp [rotF, GridRot.pull, List.range, List.range.loop]
+  · simp [rotF, hx]
+
+/-- the identity is one of the grid rotations (2-D) and leaves every template field unchanged -/
+theorem rotF_id2 {α : Type} (a b : Nat) (g : List Int → α) :
+    GridOk2 ⟨[0,1], [false,false]⟩ a b ∧ rotF ⟨[0,1], [false,false]⟩ [a,b] g = g := by
+  refine ⟨⟨⟨_, _, rfl⟩, Or.inl rfl⟩, ?_⟩
+  funext x
+  by_cases hx : x.length = 2
+  · match x, hx with
+    | [x0, x1], _ => simp [rotF, GridRot.pull, List.range, List.range.loop]
+  · simp [rotF, hx]
+
 example : SameOk true [5,4] [3,2] [7,5] [0,3] := by simp [SameOk, convLen]
 example : SameOk false [5,4] [3,2] [5,4] [1,1] := by simp [SameOk, convLen]
 example : ValidOk true [7,6] [3,2] [9,7] [4,3] := by simp [ValidOk, convLen, validExt]
